@@ -472,12 +472,13 @@ def keyset_model(sd, max_rot=None):
     """KeysetSteps.tla: RotateKeyset + LoadMint recovery with crashes between any two storage calls and one failing call, exhaustive.
     The recovery of the code ("latest") must satisfy every invariant; "oldest" (a seeded change) and "none" (the code before 6a5ae38)
     must be rejected."""
-    max_rot = max_rot or (3 if tier() == "quick" else 5)
+    max_rot = max_rot or (4 if tier() == "quick" else 7)
+    max_crash = 3 if tier() == "quick" else 6
     out = {}
     for variant in ("latest", "oldest", "none"):
         d = _sd(sd, "ks_" + variant)
         with open(os.path.join(d, "KeysetRun.cfg"), "w") as f:
-            f.write("SPECIFICATION Spec\nCHECK_DEADLOCK FALSE\nCONSTANTS\n  MaxRot = %d\n  Recovery = \"%s\"\n" % (max_rot, variant) +
+            f.write("SPECIFICATION Spec\nCHECK_DEADLOCK FALSE\nCONSTANTS\n  MaxRot = %d\n  MaxCrash = %d\n  Recovery = \"%s\"\n" % (max_rot, max_crash, variant) +
                     "INVARIANT Inv_OneActive\nINVARIANT Inv_Unchanged\nINVARIANT Inv_CanStart\nINVARIANT Inv_Rows\n")
         rc, txt, dt = tlc(d, "KeysetSteps.tla", "KeysetRun.cfg", workers=2, timeout=600, xmx="2g")
         m = re.search(r"(\d+) states generated, (\d+) distinct states found", txt)
@@ -491,7 +492,7 @@ def keyset_model(sd, max_rot=None):
         raise Infra("KeysetSteps: the recovery of the current code violates %s in the model (to be reproduced on the real mint)" % out["latest"]["violated"])
     if not out["oldest"]["violated"] or not out["none"]["violated"]:
         raise Infra("KeysetSteps accepted a defective recovery variant (vacuous?): %s" % out)
-    return {"max_rotations": max_rot, "variants": out, "states_generated": sum(x["generated"] for x in out.values()),
+    return {"max_rotations": max_rot, "max_crashes": max_crash, "variants": out, "states_generated": sum(x["generated"] for x in out.values()),
             "distinct_states": sum(x["distinct"] for x in out.values())}
 
 
